@@ -222,3 +222,21 @@ pub fn ser_unc<T: ark_serialize::CanonicalSerialize>(x: &T) -> Vec<u8> {
     x.serialize_uncompressed(&mut v).expect("serialize");
     v
 }
+
+/// Shape variety for generated dense coefficient vectors (leading coefficient kept): one vector in
+/// three gets its k lowest coefficients zeroed, k in 1..=deg (k = deg leaves a monomial). The choice is
+/// drawn from its own stream so that the coefficients of the other two thirds do not move.
+pub fn low_zeros<F: ark_ff::Field>(c: &mut [F], seed: u64) {
+    use rand_core::RngCore;
+    let deg = c.len().saturating_sub(1);
+    if deg == 0 {
+        return;
+    }
+    let mut g = rng(seed ^ 0x10a2_e705);
+    if g.next_u64() % 3 == 0 {
+        let k = 1 + (g.next_u64() as usize) % deg;
+        for x in c.iter_mut().take(k) {
+            *x = F::zero();
+        }
+    }
+}
